@@ -804,6 +804,8 @@ fn eval_case(ch: &mut Child, cs: &Cases, c: &Case) -> String {
             format!("{} | {} | {}", fmt_res(&u), fmt_res(&f), fmt_expr(&fe))
         }
         Kind::C10T { e } => {
+            // `.emit(v: name)` / `.emit(v: "text")` are field copies, not expression evaluation
+            if matches!(e, Expr::Ident(_) | Expr::Str(_)) { return "SKIP-fieldcopy".into(); }
             let src = format!("stream S = E .emit(v: {})", vpl(e).unwrap());
             // the text must denote the intended tree: parse() (which folds) must equal fold(intended)
             let program = match varpulis_parser::parse(&src) { Ok(p) => p, Err(_) => return "SKIP-parse".into() };
